@@ -95,7 +95,7 @@ def cases(draw, tier):
     proj = {"dirs": [""], "sources": ["s0"], "dofiles": pdof, "targets": cyc + pre + sib, "watch": []}
     return {"project": proj, "late": late, "invs": [{"argv": argv, "cwd": "", "env": env, "jobserver": js}], "cycle": cyc,
             "entries": entries, "jobs": jobs, "excluded_d8": excluded_d8, "parallel_entries_into_cycle": len(cyc_entries) >= 2 and jobs >= 2,
-            "schedule": draw(sgen.schedule()), "sopts": {"coincide": False, "token_games": False, "silence_s": 5.0,
+            "schedule": draw(sgen.schedule()), "sopts": {"seed": draw(st.integers(0, 2 ** 31 - 1)), "coincide": False, "token_games": False, "silence_s": 5.0,
                                                            "patient": draw(st.integers(0, 1)) == 1}}
 
 
